@@ -188,9 +188,15 @@ Definition erase (l : list item) : list gate :=
 Definition prescribed (rules : list rule) (g : gate) : list item :=
   flat_map (fun r => if fires r g then chans_of (r_err r) (eff_qubits r g) else []) (lookup rules g).
 
+(* the prescribed channels of the readout rules / of the other rules *)
+Definition prescribed_sel (ro : bool) (rules : list rule) (g : gate) : list item :=
+  flat_map (fun r => if fires r g && Bool.eqb (is_readout (r_err r)) ro
+                     then chans_of (r_err r) (eff_qubits r g) else []) (lookup rules g).
+
+(* a gate is followed by its channels; a measurement is PRECEDED by its readout channels *)
 Definition spec_block (rules : list rule) (g : gate) : list item :=
   match g_kind g with
-  | KM => prescribed rules g ++ [Orig g]
+  | KM => prescribed_sel true rules g ++ [Orig g] ++ prescribed_sel false rules g
   | _ => Orig g :: prescribed rules g
   end.
 
